@@ -151,7 +151,7 @@ class Pre:
 def build(ctx, cfg):
     N = cfg["N"]
     with_seg = cfg.get("seg", True)
-    shape = tuple(cfg.get("shape", (2, 1, 2)))
+    shape = tuple(cfg.get("shape", (3, 1, 1)))
     ids = list(range(1, N + 1))
     g = SymDiGraph(ids, fresh=False, sym_order=False)
     p = Pre()
@@ -178,7 +178,8 @@ def build(ctx, cfg):
     p.sh0 = sh
     pre = dict(I.forest(sh))
     pre["forward"] = I.forward(sh, p.t0)
-    pre["times"] = And([And(0 <= p.t0[i], p.t0[i] < shape[0]) for i in range(N)])
+    n_frames = shape[0] if with_seg else max(shape[0], N)
+    pre["times"] = And([And(0 <= p.t0[i], p.t0[i] < n_frames) for i in range(N)])
     pre["tids"] = And([And(1 <= p.tid0[i], p.tid0[i] <= N + 1) for i in range(N)])
     ctx.assume(And(list(pre.values())))
     seg = None
@@ -292,6 +293,9 @@ def _harness(ctx, cfg):
     ctx.input("select", None if sel is None else sorted(sel))
     ctx.input("cfg", {kk: vv for kk, vv in cfg.items() if kk in ("display_names", "export_seg")})
     anc = ancestors_closure(sh)
+    if n >= 3:
+        ctx.witness("chain_of_three", Or([And(sh.A[a][b], sh.A[b][c]) for a in range(n) for b in range(n)
+                                          for c in range(n) if len({a, b, c}) == 3]))
     if sel is None:
         keep = [sh.al[i] for i in range(n)]
     else:
